@@ -138,7 +138,7 @@ class Kernel:
         return None, text[-1500:]
 
 
-def run_kernels(pid, kernels, tier, title, bounds, level='other', explanation='', assumptions=None, extra=None, harness_re='^VHarness', budgets=None):
+def run_kernels(pid, kernels, tier, title, bounds, level='other', explanation='', assumptions=None, extra=None, harness_re='^VHarness', budgets=None, write=True):
     """Run all kernels of a property; print VIOLATION / KNOWN-FINDING lines; write evidence.  -> exit code"""
     t0 = time.time()
     known = core.load_known(pid)
@@ -150,7 +150,8 @@ def run_kernels(pid, kernels, tier, title, bounds, level='other', explanation=''
     violations, known_hits, spurious, skipped, inconclusive = [], [], [], [], []
     tot = {'paths': 0, 'asserts_ok': 0, 'queries': 0, 'solver_ms': 0, 'unknowns': 0}
     for k in kernels:
-        res = k.run(harness_re=os.environ.get('VERIF_ONLY') or harness_re, **budgets)
+        only = os.environ.get('VERIF_ONLY')
+        res = k.run(harness_re=only if (only and only.startswith('VHarness')) else harness_re, **budgets)
         if res.get('skipped'):
             skipped.append({'package': k.pkgdir, 'reason': res['skipped']})
             print('SKIP kernel %s: %s' % (k.pkgdir, res['skipped'][:300]))
@@ -223,7 +224,7 @@ def run_kernels(pid, kernels, tier, title, bounds, level='other', explanation=''
     }
     if extra:
         ev['coverage'].update(extra)
-    if not noev:
+    if not noev and write:
         core.write_evidence(pid, ev)
     print('%s %s (kernels): %d harnesses, %d complete, %d paths, %d assertions discharged, %d violations, %d known-finding hits, %d spurious, %d inconclusive; %.1fs' % (
         pid, tier, len(per), ev['coverage']['harnesses_complete'], tot['paths'], tot['asserts_ok'], len(violations), len(known_hits), len(spurious), len(inconclusive), time.time() - t0))
